@@ -13,6 +13,7 @@ import (
 	"os"
 	"strconv"
 	"strings"
+	"sync"
 	"time"
 
 	"go.amzn.com/lambda/core/statejson"
@@ -44,6 +45,9 @@ type InteropServer interface {
 }
 
 var initDone bool
+
+// initMutex serialises the first-call initialisation between concurrent invoke requests
+var initMutex sync.Mutex
 
 func GetenvWithDefault(key string, defaultValue string) string {
 	envValue := os.Getenv(key)
@@ -101,19 +105,24 @@ func InvokeHandler(w http.ResponseWriter, r *http.Request, sandbox Sandbox, bs i
 	functionVersion := GetenvWithDefault("AWS_LAMBDA_FUNCTION_VERSION", "$LATEST")
 	memorySize := GetenvWithDefault("AWS_LAMBDA_FUNCTION_MEMORY_SIZE", "3008")
 
-	if !initDone {
+	func() {
+		initMutex.Lock()
+		defer initMutex.Unlock()
 
-		initStart, initEnd := InitHandler(sandbox, functionVersion, timeout, bs)
+		if !initDone {
 
-		// Calculate InitDuration
-		initTimeMS := math.Min(float64(initEnd.Sub(initStart).Nanoseconds()),
-			float64(timeoutDuration.Nanoseconds())) / float64(time.Millisecond)
+			initStart, initEnd := InitHandler(sandbox, functionVersion, timeout, bs)
 
-		initDuration = fmt.Sprintf("Init Duration: %.2f ms\t", initTimeMS)
+			// Calculate InitDuration
+			initTimeMS := math.Min(float64(initEnd.Sub(initStart).Nanoseconds()),
+				float64(timeoutDuration.Nanoseconds())) / float64(time.Millisecond)
 
-		// Set initDone so next invokes do not try to Init the function again
-		initDone = true
-	}
+			initDuration = fmt.Sprintf("Init Duration: %.2f ms\t", initTimeMS)
+
+			// Set initDone so next invokes do not try to Init the function again
+			initDone = true
+		}
+	}()
 
 	invokeStart := time.Now()
 	invokePayload := &interop.Invoke{
